@@ -6,6 +6,9 @@ Monitor: block structure of every minimize candidate, resweep rule, refusal of n
 real `process_args`, no test started after the time limit (minimize, around, balanced, +move)."""
 from __future__ import annotations
 
+import contextlib
+import io
+
 import os
 
 from .. import common, loaders, strat
@@ -102,9 +105,9 @@ def check_blocks(ctx, cfg, f, run, case):
         ctx.sample(dict(cfg=cfg, n=case["n"], sweeps=sizes_seen[:20]), limit=4)
 
 
-def one(ctx, cfg, n, seq, clock=None, do_model=True, name="minimize", parts=None):
+def one(ctx, cfg, n, seq, clock=None, do_model=True, name="minimize", parts=None, red=None):
     parts = parts or [b"%d\n" % i for i in range(n)]
-    f = (b"", parts, [True] * n, b"")
+    f = (b"", parts, list(red) if red is not None else [True] * n, b"")
     tc = strat.testcase_from_fields("line", f)
     run = strat.run_real(name, cfg, tc, lambda k, c: seq[k % len(seq)], clock_times=clock, max_tests=20000)
     case = dict(strategy=name, cfg=cfg, n=n, verdicts="".join("1" if v else "0" for v in run.verdicts[:150]), clock=(clock or [])[:40])
@@ -148,6 +151,22 @@ def grid(ctx, thorough, do_model=True):
         for rep in ("always", "last", "never"):
             seq = [rng.random() < 0.5 for _ in range(397)]
             one(ctx, dict(rep=rep), n, seq, do_model=do_model)
+
+
+def layouts(ctx, thorough, do_model=True):
+    """testcases with non-reducible parts between the atoms (as --js / --attrs produce): the effective maximum and
+    every block are counted in reducible atoms, not in parts"""
+    rng = ctx.rng
+    import itertools
+    for n in range(2, 10 if thorough else 8):
+        masks = list(itertools.product((True, False), repeat=n))
+        rng.shuffle(masks)
+        for red in masks[:64 if thorough else 20]:
+            if not any(red):
+                continue
+            for cfg in (dict(), dict(rep="always"), dict(max=2), dict(min=2, max=4, rep="never")):
+                seq = [rng.random() < rng.choice([0.0, 0.3, 0.7]) for _ in range(97)]
+                one(ctx, cfg, n, seq, do_model=do_model, red=red)
 
 
 def deadlines(ctx, thorough, do_model=True):
@@ -202,7 +221,8 @@ def pow2_cases(ctx, thorough):
             for v in vals:
                 lith = Lithium()
                 try:
-                    lith.process_args([f"{opt}={v}", "c14_probe_test.py", "tc.txt"])
+                    with contextlib.redirect_stderr(io.StringIO()):  # argparse prints its usage text on refusal
+                        lith.process_args([f"{opt}={v}", "c14_probe_test.py", "tc.txt"])
                     refused = False
                 except SystemExit:
                     refused = True
@@ -234,6 +254,7 @@ def known_finding_cases(ctx):
 
 
 def search(ctx):
+    layouts(ctx, True, do_model=False)
     grid(ctx, True, do_model=False)
     deadlines(ctx, True, do_model=False)
 
@@ -242,6 +263,7 @@ def run(ctx) -> int:
     proof = common.proof_stage(ctx.pid)
     known_finding_cases(ctx)
     grid(ctx, ctx.thorough)
+    layouts(ctx, ctx.thorough)
     deadlines(ctx, ctx.thorough)
     ctx.exhaustive.append("a clock jump past the limit at every test index (<= 25) of fixed runs of minimize, around, balanced, balanced+move")
     pow2_cases(ctx, ctx.thorough)
